@@ -149,7 +149,9 @@ class AsyncIOThreadSafeScheduler(AsyncIOScheduler):
         try:
             current_loop = asyncio.get_running_loop()
         except RuntimeError:
-            # If no running event loop is found, assume we're in a different thread
-            return True
+            # No event loop is running in this thread, but self._loop is
+            # running: we are on a foreign thread, so the cancellation has to
+            # be marshalled onto the loop and awaited.
+            return False
 
         return self._loop == current_loop
